@@ -21,7 +21,7 @@ def base_vad():
     return {"top": "top", "modules": [
         {"name": "top", "attrs": {"top_attr": '"1"', "bare_top": None}, "params": {"P": "4", "[3:0] W": "4'h3", "integer N": "7"},
          "ports": [["a", "in", None, None], ["y", "out", 1, 0], ["\\esc.in", "in", None, None], ["b", "in", 2, 0]],
-         "wires": [["w", 1, 0, {"keep": None}], ["\\q[3]", None, None], ["r", 5, 3], ["s1", None, None], ["v", 1, 0], ["t", 5, 5], ["n2", 7, 4]],
+         "wires": [["w", 1, 0, {"keep": None}], ["\\q[3]", None, None], ["r", 5, 3], ["s1", None, None], ["v", 1, 0], ["t", 5, 5], ["n2", 7, 4], ["n3", 9, 6]],
          "insts": [
              {"name": "u0", "module": "leaf", "positional": True, "params": {"INIT": "8'h0F", "S": '"str"', "T": '"two  words and\ttab"'},
               "conns": [[None, [["net", "a"]]], [None, [["bit", "w", 0]]], [None, [["net", "y"]]]]},
@@ -37,7 +37,7 @@ def base_vad():
              {"name": "p2", "module": "prim", "conns": [["x", [["c", "X"]]], ["z", [["c", "z"], ["c", "Z"]]], ["q", [["c", "x"]]]]},
              {"name": "dd", "module": "leaf", "conns": [["d", [["net", "s1"], ["net", "s1"]]]]},   # one net on two bits of a port
              # a one-bit net based at 5; a bus of which only a middle bit is used (its lowest bit never is)
-             {"name": "tt", "module": "leaf", "conns": [["i", [["bit", "t", 5]]], ["o", [["bit", "n2", 6]]]]},
+             {"name": "tt", "module": "leaf", "conns": [["i", [["bit", "t", 5]]], ["o", [["bit", "n3", 8]]]]},
              {"name": "u9", "module": "leaf", "positional": True,
               "conns": [[None, [["net", "s1"]]], [None, [["bit", "v", 0]]], [None, [["range", "r", 4, 3]]]]}],
          "assigns": [[[["bit", "y", 0]], [["bit", "b", 1]]], [[["range", "r", 5, 4]], [["range", "b", 2, 1]]],
